@@ -642,7 +642,7 @@ class Engine:
         n_acts_before = sim.tr.n
         sim.tr.hook = self.bind_hook if self.overriding_active() else None
         self.fail_idx_now = []
-        sim.tr.after = self.after_event if (self.sc.get("exact_failures") and self.pending_failures()) else None
+        sim.tr.after = self.after_event if (self.exact_mode() and self.pending_failures()) else None
         sim.tr.decl_attempt = self.decl_attempt if sim.tr.after is not None else None
         for k, vn in enumerate(order):
             # distinct value ranges are not needed: the twins never see each other
@@ -679,6 +679,16 @@ class Engine:
 
     # -- injected subscriber failures, exactly (scenario key "exact_failures") -----------------
     EXACT_KINDS = ("whole", "accum", "map")
+
+    def exact_mode(self):
+        """Subscriber failures are modelled exactly when the history has at most one failing /
+        re-entering subscriber: with two of them, whether the second was served the event at which
+        the first struck is not stated, so its own count could not be followed."""
+        if not self.sc.get("exact_failures"):
+            return False
+        n = sum(1 for rec in self.probes.values() for st in rec.stages
+                if (st.get("raises") is not None or st.get("reenter")) and not st.get("post"))
+        return n <= 1
 
     def pending_failures(self):
         return [(rec, st) for rec in self.probes.values() if rec.active
@@ -772,12 +782,24 @@ class Engine:
             self.sim.reach("declaration_in_uninstrumented_function")
             return
 
-        def same_names(log):
-            # the model's stand-in for ptera's name error, as seen by the program's own
-            # context managers / handlers (they log the class name of what passes through)
-            return json.loads(json.dumps(log).replace('"ModelNameError"', '"PteraNameError"'))
+        def same_names(x):
+            # the model's stand-in for ptera's name error, as seen by the program itself: context
+            # managers / handlers log the class name of what passes through, and a handler may bind
+            # the exception and hand it on (``except Exception as e: use(e)``)
+            if isinstance(x, list):
+                if len(x) >= 3 and x[0] == "exc" and x[1] == "ModelNameError" and isinstance(x[2], list):
+                    return ["exc", "NameError*", x[2][1], x[2][0]]
+                if len(x) >= 4 and x[0] == "exc" and x[1] == "PteraNameError":
+                    return ["exc", "NameError*", x[2], x[3]]
+                return [same_names(y) for y in x]
+            if isinstance(x, dict):
+                return {k: same_names(v) for k, v in x.items()}
+            if x in ("ModelNameError", "PteraNameError"):
+                return "NameError*"
+            return x
 
         m = dict(m, log=same_names(m["log"]))
+        s_ = dict(s_, log=same_names(s_["log"]))
         mo, so = m["out"], s_["out"]
         if mo[0] == "exc" and mo[1][1] == "ModelNameError":
             fn, var = mo[1][2]
@@ -1076,7 +1098,7 @@ class Engine:
                     st["raised_seen"] = True
         # with exact failures the model has been through the same failure: nothing is relaxed, but
         # the untouched twin (which knows no probes) is no reference for this operation
-        exact = bool(self.sc.get("exact_failures"))
+        exact = self.exact_mode()
         optional = set(self.fail_idx_now)
         ref_skip = raised_now or bool(optional) or getattr(self, "ref_diverged", False)
         if exact:
